@@ -1,4 +1,67 @@
-import AdfModel.Api
+/-
+  C19 — Device I/O failures are contained.
+  Quantifiers: every state, every fault schedule (`faultAt`/`faultEvery` are arbitrary fields of the state), every
+  handle.  What is proved on the model:
+   * a block read always returns; status OK means the data is byte-for-byte the addressed sector and the access was
+     not a failing one; any other status delivers no data; the disk and the library memory are untouched;
+   * a block write that does not report OK leaves the disk byte-for-byte unchanged; one that reports OK replaced
+     exactly the addressed sector;
+   * `adfFileReadNextBlock` never moves the cursor on a failure (index, buffer, buffer's block number, position), and
+     on success its buffer IS the disk content of the block it designates;
+   * the loop of `adfFileRead` (handle not open for writing) never touches the disk, delivers at most the
+     requested number of bytes, only ever appends to what it delivered, and moves the position by at most the request.
+  Not proved here (left to the trace-exact correspondence, the byte-array oracle under exhaustive single-fault
+  enumeration, and ASan): that the bytes delivered are the file's content at that offset for every layout
+  (the block walk), and real memory safety of the C error paths.
+-/
+import AdfProofs.FileReadLemmas
 namespace Adf.C19
-theorem C19_placeholder : True := trivial
+open Adf
+
+/-- a block read under any fault schedule -/
+theorem C19_read_contained (c : Cfg) (v n : Nat) (s : St) :
+    ∃ rc buf s', run c (volRead v n) s = (.ok (rc, buf), s') ∧ s'.mem = s.mem ∧ s'.disk = s.disk ∧
+      (rc = rcOK → buf = (s.sector (vsect c v n)).take 512 ∧ s.tick.1 = false) ∧ (rc ≠ rcOK → buf = []) :=
+  run_volRead_spec c v n s
+
+/-- a scheduled failure is reported: when the schedule fails this access, the status is not OK -/
+theorem C19_fault_reported_read (c : Cfg) (v n : Nat) (s : St) (hf : s.tick.1 = true) :
+    ∃ rc buf s', run c (volRead v n) s = (.ok (rc, buf), s') ∧ rc ≠ rcOK ∧ buf = [] := by
+  obtain ⟨rc, buf, s', hr, _, _, h1, h2⟩ := run_volRead_spec c v n s
+  have hne : rc ≠ rcOK := fun h => by have := (h1 h).2; rw [hf] at this; cases this
+  exact ⟨rc, buf, s', hr, hne, h2 hne⟩
+
+/-- a block write under any fault schedule: not OK ⇒ disk unchanged; OK ⇒ exactly that sector replaced -/
+theorem C19_write_contained (c : Cfg) (v n : Nat) (b : Bytes) (s : St) :
+    ∃ rc s', run c (volWrite v n b) s = (.ok rc, s') ∧ s'.mem = s.mem ∧
+      (rc ≠ rcOK → s'.disk = s.disk) ∧
+      (rc = rcOK → s'.disk = s.disk.insert (vsect c v n) (padTo b 512) ∧ s.tick.1 = false) :=
+  run_volWrite_spec c v n b s
+
+theorem C19_fault_reported_write (c : Cfg) (v n : Nat) (b : Bytes) (s : St) (hf : s.tick.1 = true) :
+    ∃ rc s', run c (volWrite v n b) s = (.ok rc, s') ∧ rc ≠ rcOK ∧ s'.disk = s.disk := by
+  obtain ⟨rc, s', hr, _, h1, h2⟩ := run_volWrite_spec c v n b s
+  have hne : rc ≠ rcOK := fun h => by have := (h2 h).2; rw [hf] at this; cases this
+  exact ⟨rc, s', hr, hne, h1 hne⟩
+
+/-- the cursor never advances on a failed read and the buffer is the designated block's disk content on success -/
+theorem C19_next_block (c : Cfg) (h : FileH) (s : St) :
+    Post AnyFault c (fileReadNextBlock h) s (fun r s' =>
+      s'.disk = s.disk ∧ Kept h r.2 ∧
+      (r.1 ≠ rcOK → r.2.nDataBlock = h.nDataBlock ∧ r.2.curData = h.curData ∧ r.2.curDataPtr = h.curDataPtr ∧ r.2.pos = h.pos) ∧
+      (r.1 = rcOK → r.2.nDataBlock = h.nDataBlock + 1 ∧ r.2.pos = h.pos ∧
+          r.2.curData = padTo ((s.sector (vsect c h.vol r.2.curDataPtr)).take 512) 512)) :=
+  fileReadNextBlock_spec c h s
+
+/-- short reads only: never more than requested, only appended, disk untouched -/
+theorem C19_read_loop (c : Cfg) (dbs doff fuel : Nat) (h : FileH) (remaining : Nat) (acc : Bytes) (s : St)
+    (hro : h.modeWrite = false) :
+    Post AnyFault c (fileReadLoop dbs doff fuel h remaining acc) s (fun r s' =>
+      s'.disk = s.disk ∧ acc <+: r.1 ∧ r.1.length ≤ acc.length + remaining ∧ r.2.pos ≤ h.pos + remaining ∧
+      r.2.modeWrite = false) :=
+  fileReadLoop_spec c dbs doff fuel h remaining acc s hro
+
+/-- non-vacuity: a schedule that fails the very next access exists and `tick` says so -/
+example : ({ faultAt := some 0 } : St).tick.1 = true := by decide
+
 end Adf.C19
